@@ -3609,6 +3609,13 @@ spmatrix_ass_subscr(spmatrix* self, PyObject* args, PyObject* value)
       PY_ERR_INT(PyExc_TypeError, "incompatible sizes in assignment");
     }
 
+    /* nothing to assign (the merge below reads the first index) */
+    if (lgtI == 0) {
+      if (!Matrix_Check(args)) { Py_DECREF(Il); }
+      if (decref_val) { Py_DECREF(value); }
+      return 0;
+    }
+
     /* ass. argument is dense matrix or number */
     if  (itype == 'd' || itype == 'n') {
 
